@@ -1152,7 +1152,7 @@ func handleAction(c *webClient, a any) error {
 		}
 
 	case pushClientAction:
-		if a.group != c.group.Name() {
+		if c.group == nil || a.group != c.group.Name() {
 			log.Printf("got client for wrong group")
 			return nil
 		}
@@ -1449,6 +1449,9 @@ func handleClientMessage(c *webClient, m clientMessage) error {
 		if redirect := g.Description().Redirect; redirect != "" {
 			// We normally redirect at the HTTP level, but the group
 			// description could have been edited in the meantime.
+			// The client has been added to the group, remove it.
+			c.group = g
+			leaveGroup(c)
 			username := c.username
 			return c.write(clientMessage{
 				Type:     "joined",
